@@ -4,7 +4,7 @@ PKT_RULE = 'boundary product of <= 2 options over delta/length sets {0,1,12,13,1
 
 PROPS = {
     'C01': dict(
-        lean='CoapLite.Props.C01', domains=['PKT'], rule=PKT_RULE,
+        lean='CoapLite.Props.C01', domains=['PKT', 'ACC'], line_filter=r'(PKT |ACC (copy|copyinto|wadd|mut|view) )', rule=PKT_RULE + ' Messages assembled through the coap-message writer traits (ACC copy / copyinto / wadd / mut) are included.',
         explanation='enc = RFC 7252 wire image and dec(enc m) = m proved for all well-formed packets; Packet/Codec model tied by domain PKT in both overflow modes',
     ),
     'C02': dict(
